@@ -41,6 +41,35 @@ Fixpoint xent_list (ps qs : list Q) : R :=
   end.
 Definition kl_list (ps qs : list Q) : R := xent_list ps qs - entropy_list ps.
 
+(* reflected real-valued results: Q-level data + which denotation applies *)
+Inductive rdata :=
+| RLin (t : list (Q * list Q))                  (* sum c_i H(l_i), bits *)
+| RNats (t : list (Q * list Q))                 (* ln 2 * sum c_i H(l_i): nats *)
+| RRenyi (a : Q) (l : list Q)
+| RHartley (l : list Q)                         (* log2 of the support size *)
+| RMinEnt (l : list Q)                          (* -log2 max p *)
+| RTsallis (a : Q) (l : list Q)
+| RExtropy (l : list Q)
+| RPow (b : Q) (t : list (Q * list Q))          (* b ^ (sum c_i H(l_i)) *)
+| RXent (ps qs : list Q)
+| RKL (ps qs : list Q)
+| RConst (q : Q).
+
+Definition rden (r : rdata) : R :=
+  match r with
+  | RLin t => lincomb t
+  | RNats t => ln 2 * lincomb t
+  | RRenyi a l => renyi_list a l
+  | RHartley l => log2 (IZR (Z.of_nat (support_size l)))
+  | RMinEnt l => - log2 (Q2R (qmax l))
+  | RTsallis a l => tsallis_list a l
+  | RExtropy l => extropy_list l
+  | RPow b t => Rpower (Q2R b) (lincomb t)
+  | RXent ps qs => xent_list ps qs
+  | RKL ps qs => kl_list ps qs
+  | RConst q => Q2R q
+  end.
+
 (* ------------------------------------------------------------------------------------------ *)
 (* bridges *)
 
